@@ -217,6 +217,10 @@ class _ReadSourceGenerator:
                     yield f"stream.seek(o + {field.offset})"
                     current_offset = field.offset
 
+                if self.align and field.offset is None:
+                    # Alignment after a dynamic field depends on the actual stream position, so read these one by one
+                    yield from flush()
+
                 current_block.append(field)
 
             if current_offset is not None and size is not None and (not field.bits or bits_rollover):
